@@ -76,7 +76,8 @@ ProxyOK(S, e) ==
 
 CtxClause(S, o, e) ==
   IF ~(AttrOK(S, e) /\ StackOK(S, e)) THEN
-       (IF e.c = o.ctx THEN "ViewEqualsIdeal"
+       \* after a release path the acting context must see nothing of what was released
+       (IF e.c = o.ctx THEN (IF o.op \in ReleaseOps THEN "ReleaseReleases" ELSE "ViewEqualsIdeal")
         ELSE IF o.op = "spawn" /\ e.c = o.child THEN "ChildSeesSnapshot"
         ELSE IF o.op \in ReleaseOps THEN "ReleaseIsLocal"
         ELSE "NoLeakBetweenContexts")
@@ -104,15 +105,33 @@ OpOf(line) == [ctx |-> line.ctx, op |-> line.op, n |-> line.n, b |-> line.b, v |
 
 \* "ok" | a clause of the property | "drift:..." (the trace is not a behaviour of the model's
 \* vocabulary: a harness problem, reported as drift, never as a verdict)
+\* The state the contract prescribes after the recorded call.  Two outcomes are left open by the
+\* documentation and decided by what was recorded:
+\*  - LocalManager(x) that raised (the bare-LocalStack form does on this tree although the type
+\*    annotation lists it): no new manager exists, the old one stays in use;
+\*  - a middleware request whose app raised: released or not (AltNextOf), whichever was observed.
+Target(S, o, line) == IF o.op = "mkmgr" /\ line.r.tag = "exc" THEN S ELSE NextOf(S, o)
+
+JudgeAgainst(T, S, o, line) ==
+  IF {e.c : e \in SeqSet(line.obs)} # T.alive \/ Len(line.obs) # Cardinality(T.alive)
+  THEN "drift:contexts-observed"
+  \* results of LocalManager(...) and of the middleware call are not part of the property
+  ELSE IF o.op \notin {"mkmgr", "mw"} /\ line.r # RetOf(S, o) THEN
+       (IF o.op \in ProxyOps THEN "ProxyResolvesInAccessingContext"
+        ELSE IF o.op \in ReleaseOps THEN "ReleaseReleases" ELSE "ReturnValue")
+  ELSE FirstBad(T, o, line.obs, 1)
+
+\* [v |-> "ok" | a clause of the property | "drift:..." (the trace is not a behaviour of the
+\* model's vocabulary: a harness problem, reported as drift, never as a verdict), s |-> next state]
 Verdict(S, line) ==
   LET o == OpOf(line) IN
-  IF ~Enabled(S, o) THEN "drift:operation-not-enabled"
-  ELSE LET r == Step(S, o) IN
-       IF {e.c : e \in SeqSet(line.obs)} # r.s.alive \/ Len(line.obs) # Cardinality(r.s.alive)
-       THEN "drift:contexts-observed"
-       ELSE IF line.r # r.ret THEN
-            (IF o.op \in ProxyOps THEN "ProxyResolvesInAccessingContext" ELSE "ReturnValue")
-       ELSE FirstBad(r.s, o, line.obs, 1)
+  IF ~Enabled(S, o) THEN [v |-> "drift:operation-not-enabled", s |-> S]
+  ELSE LET T1 == Target(S, o, line)
+           v1 == JudgeAgainst(T1, S, o, line)
+           T2 == AltNextOf(S, o)
+       IN IF v1 = "ok" \/ T2 = T1 THEN [v |-> v1, s |-> T1]
+          ELSE IF JudgeAgainst(T2, S, o, line) = "ok" THEN [v |-> "ok", s |-> T2]
+          ELSE [v |-> v1, s |-> T1]
 
 IsDrift(v) == v \in {"drift:operation-not-enabled", "drift:contexts-observed", "drift:observed-context-not-alive"}
 
@@ -123,9 +142,9 @@ Next == /\ l <= Len(Lines)
            IF line.op = "cfg"
            THEN st' = InitState(SeqSet(line.made)) /\ dead' = FALSE
            ELSE IF dead THEN UNCHANGED <<st, dead>>
-           ELSE LET v == Verdict(st, line) IN
+           ELSE LET j == Verdict(st, line) v == j.v IN
                 /\ dead' = (v # "ok")
-                /\ st' = IF v = "ok" THEN NextOf(st, OpOf(line)) ELSE st
+                /\ st' = IF v = "ok" THEN j.s ELSE st
                 /\ IF v = "ok" THEN TRUE
                    ELSE IF IsDrift(v)
                         THEN PrintT(ToJson([drift |-> 1, t |-> line.t, i |-> line.i, what |-> v]))
